@@ -655,19 +655,28 @@ func mxjOp(st mxjStep) (name, got, want string) {
 		if err := json.Unmarshal(st.R, &exp); err != nil {
 			panic(err)
 		}
-		name = fmt.Sprintf("leaf of NewMapXml(<r><c>%s</c></r>, true)", st.Arg)
-		m, err := mxj.NewMapXml([]byte("<r><c>"+st.Arg+"</c></r>"), true)
+		// two siblings: the casts of both members of the list r.c (the structure is the decoder's, the leaf values the cast's)
+		name = fmt.Sprintf("members of r.c in NewMapXml(<r><c>%s</c><c>%s</c></r>, true)", st.Arg, st.Arg)
+		m, err := mxj.NewMapXml([]byte("<r><c>"+st.Arg+"</c><c>"+st.Arg+"</c></r>"), true)
 		if err != nil {
-			return name, "error " + err.Error(), expTok(exp)
+			return name, "error " + err.Error(), expTok(exp) + " " + expTok(exp)
 		}
-		v := interface{}(nil)
+		got := "r.c is not a list of two"
 		if r, ok := m["r"].(map[string]interface{}); ok {
-			v = r["c"]
-			if cm, ok := v.(map[string]interface{}); ok { // simple values as map / sequence numbers: the text entry
-				v = cm[mxj.VerifOptions()["textK"].(string)]
+			if l, ok := r["c"].([]interface{}); ok && len(l) == 2 {
+				toks := make([]string, 2)
+				for i, v := range l {
+					if cm, ok := v.(map[string]interface{}); ok { // simple values as map / sequence numbers: the text entry
+						v = cm[mxj.VerifOptions()["textK"].(string)]
+					}
+					toks[i] = leafTok(v)
+				}
+				got = toks[0] + " " + toks[1]
+			} else {
+				got = "r.c = " + tagged.CanonGo(r["c"])
 			}
 		}
-		return name, leafTok(v), expTok(exp)
+		return name, got, expTok(exp) + " " + expTok(exp)
 	case "query":
 		var exp struct {
 			Ok   bool         `json:"ok"`
